@@ -1,0 +1,19 @@
+//go:build verif
+
+// Contracts for the deductive verifier in /verif (comment-only file; see /verif/DESIGN.md).
+package lz4
+
+//@ property C16 C10
+
+// Close gives the (de)compressor back to the pool exactly once: when it returns, the closed wrapper no longer references
+// the pooled object, so a second Close (the library itself closes v1 compressors twice) cannot put the same object into
+// the pool again and hand it to two users at once, and a closed wrapper cannot touch an object that now belongs to
+// somebody else.
+//@ func (*reader).Close
+//@   option noframe
+//@   modifies heap
+//@   ensures r.Reader == nil
+//@ func (*writer).Close
+//@   option noframe
+//@   modifies heap
+//@   ensures w.Writer == nil
